@@ -10,9 +10,9 @@ git checkout -q -- . ; rm -f $PKG/zz_seed_demo_test.go
 run() { timeout 1200 go test -vet=off -count=1 -p 4 "$@" 2>&1 | tail -5; return ${PIPESTATUS[0]}; }
 echo "== existing tests, clean tree"; run ./$PKG/ $EXTRA; R0=$?
 cp $SD/$DEMO $PKG/zz_seed_demo_test.go
-echo "== demo on clean tree (expect pass)"; run ./$PKG/ -run 'Seed|Demo|seed|demo'; R1=$?
+echo "== demo on clean tree (expect pass)"; run ./$PKG/ -run 'Seed|Demo|seed|demo|TestC[0-9][0-9][AB]_|Preexisting'; R1=$?
 git apply $SD/patch.diff || { echo "PATCH DOES NOT APPLY"; exit 3; }
-echo "== demo with patch (expect FAIL)"; run ./$PKG/ -run 'Seed|Demo|seed|demo'; R2=$?
+echo "== demo with patch (expect FAIL)"; run ./$PKG/ -run 'Seed|Demo|seed|demo|TestC[0-9][0-9][AB]_|Preexisting'; R2=$?
 rm -f $PKG/zz_seed_demo_test.go
 echo "== existing tests with patch (expect pass)"; run ./$PKG/ $EXTRA; R3=$?
 git checkout -q -- .
